@@ -58,6 +58,7 @@ func checkC12(c C12Case, o *Obs) (err error) {
 			err = windowIntact(src)
 		}
 	}()
+	warmSequtil(c.Src, o)
 	k := c.K
 	if k < 1 {
 		k = 1
@@ -430,6 +431,25 @@ func exhaustiveC12(thorough bool, emit func(C12Case) bool) {
 			return
 		}
 	}
+	// megabase sequences (beyond any threshold for working in pieces or in parallel): valid, and
+	// with one, two and three foreign bytes far apart - the panic must reach the caller (a call
+	// that neither returns nor panics is reported by the watchdog)
+	for _, n := range []int{1<<20 + 3, 1<<21 + 1} {
+		mb := realDNA(n, 9, true, true)
+		if !emit(C12Case{Src: mb, K: n + 1}) {
+			return
+		}
+		for _, positions := range [][]int{{n / 2}, {1000, 1000 + 1<<20}, {0, n / 2, n - 1}, {1<<18 - 1, 1 << 18, 3 << 18}} {
+			bad := bytes.Clone(mb)
+			for _, pos := range positions {
+				pos = min(pos, n-2)
+				bad[pos] = "U@x-"[pos%4]
+			}
+			if !emit(C12Case{Src: bad, K: n + 1}) {
+				return
+			}
+		}
+	}
 	// Every byte value alone and embedded at each position of a fixed sequence.
 	base := []byte("ACgtN")
 	for b := 0; b < 256; b++ {
@@ -517,7 +537,8 @@ func keyC12(c C12Case) []byte {
 }
 
 func propC12() Prop[C12Case] {
-	return Prop[C12Case]{ID: "C12", Gen: genC12, Exhaustive: exhaustiveC12, Check: checkC12, Key: keyC12}
+	big := func(c C12Case) bool { return len(c.Src) >= 1<<20 }
+	return Prop[C12Case]{ID: "C12", Gen: genC12, Exhaustive: exhaustiveC12, Check: checkC12, Key: keyC12, Risky: big, MustTerminate: big}
 }
 
 func TestC12(t *testing.T) { Run(t, propC12()) }
